@@ -119,7 +119,26 @@ func EnvStubs(st map[string]StubFn) {
 		if !err.(iface).isNil() {
 			return tuple{(*value)(nil), err}
 		}
-		return tuple{r.newToken("file", map[string]value{"path": a[0]}), iface{}}
+		f := r.newToken("file", map[string]value{"path": a[0]})
+		// writes through the handle are effects of their own (content as written, in order)
+		write := func(r *Run, self *absObj, args []value) value {
+			out := bytesToStr(args[0])
+			r.Effects = append(r.Effects, Effect{Op: "FileWrite", Args: []value{self.attrs["path"], out}})
+			err := r.nondetErr("FileWrite.err")
+			if !err.(iface).isNil() {
+				return tuple{0, err}
+			}
+			return tuple{lenV(out), iface{}}
+		}
+		f.meth["Write"] = write
+		f.meth["WriteString"] = write
+		f.meth["Close"] = func(r *Run, self *absObj, args []value) value {
+			r.Effects = append(r.Effects, Effect{Op: "FileClose", Args: []value{self.attrs["path"]}})
+			return r.nondetErr("FileClose.err")
+		}
+		f.meth["Sync"] = func(r *Run, self *absObj, args []value) value { return r.nondetErr("FileSync.err") }
+		f.meth["Name"] = func(r *Run, self *absObj, args []value) value { return self.attrs["path"] }
+		return tuple{f, iface{}}
 	}
 	st["os.WriteFile"] = func(r *Run, fr *frame, fn *ssa.Function, a []value) value {
 		r.Effects = append(r.Effects, Effect{Op: "WriteFile", Args: []value{a[0], bytesToStr(a[1]), a[2]}})
